@@ -140,7 +140,9 @@ def rule_r3(facts, rep, rid="C12-R3"):
     spans = [c["s"] for c in catches]
     n = 0
     for fnname in ("Router::on_request", "Router::respond", "Router::send"):
-        g = facts.fn(fnname)
+        g = facts.fn(fnname, required=(fnname != "Router::send"))
+        if g is None:
+            continue          # `send` inlined into its callers: its site is looked up there (panics.lookup)
         rep.saw_fn(g)
         inside_spans = spans if g is f else []
         for s in panics.sites_of(facts, g):
@@ -151,7 +153,7 @@ def rule_r3(facts, rep, rid="C12-R3"):
             if s.auto:
                 rep.ok(rid, s.key, "local guard: " + s.auto, s.loc)
                 continue
-            ent = tab.get(s.key)
+            ent = panics.lookup(facts, tab, s)
             cls = (ent or {}).get("props", {}).get("C12", ent or {})
             if not ent:
                 rep.violation(rid, s.key, "panic site `%s` on the response path, outside the catch_unwind guard: a panic here means no response" % s.detail, s.loc)
